@@ -161,7 +161,7 @@ class Workspace:
             for j in jobs:
                 f.write(j.code.rstrip() + "\n")
 
-    def build(self, features, timeout=900):
+    def build(self, features, timeout=3600):
         cmd = ["cargo", "kani", "--only-codegen", "--target-dir", self.target,
                "-Z", "stubbing", "-Z", "unstable-options"]
         if features:
